@@ -510,3 +510,49 @@ class CallGraph:
                     seen.add(b)
                     st.append(b)
         return seen
+
+
+def variant_regions(fn, enum_path, root_param=None):
+    """For the outermost `match` on a value of enum `enum_path` in fn: {variant name: set of blocks dominated by the
+    variant's switch target}. Or-patterns share a target and therefore a region. Returns (regions, switch_block)."""
+    best = None
+    for bi in fn.rpo():
+        b = fn.blocks[bi]
+        if b.get("cleanup"):
+            continue
+        t = b["t"]
+        if t["k"] != "switch":
+            continue
+        pl = fn.op_place(t["discr"])
+        if pl is None:
+            continue
+        for kind, dbi, si, x in fn.full_defs(pl["l"]):
+            if kind == "assign" and x["rv"]["k"] == "discr" and x["rv"].get("enum") == enum_path:
+                if root_param is not None:
+                    roots = fn.trace(x["rv"]["place"])
+                    if not any(r[0] == "param" and r[1] == root_param for r in roots):
+                        continue
+                best = (bi, t, x["rv"])
+                break
+        if best:
+            break
+    if best is None:
+        raise CheckerError("no match on %s found in %s" % (enum_path, fn.name))
+    bi, t, rv = best
+    names = {v: n for v, n in rv["variants"]}
+    regions = {}
+    for val, tgt in t["targets"]:
+        nm = names.get(val, val)
+        regions[nm] = fn.edge_dominated(bi, tgt) if len(fn.pred(tgt)) > 1 else fn.dominated_by(tgt)
+    covered = {v for v, _ in t["targets"]}
+    rest = [n for v, n in rv["variants"] if v not in covered]
+    if rest:
+        reg = fn.dominated_by(t["otherwise"]) if len(fn.pred(t["otherwise"])) == 1 else fn.edge_dominated(bi, t["otherwise"])
+        for n in rest:
+            regions[n] = reg
+    return regions, bi
+
+
+def region_of(regions, block):
+    """variant names whose region contains block"""
+    return sorted(n for n, r in regions.items() if block in r)
